@@ -386,7 +386,7 @@ func c20GenLabAddr(r *rand.Rand) labAddr {
 		// (host names are case-insensitive and may be written fully qualified with a trailing dot)
 		t = tmpl{[]string{"/dns/", "/dns4/", "/dns6/"}[r.Intn(3)] + []string{"localhost", "localhost", "LOCALHOST", "LocalHost", "localhost."}[r.Intn(5)], "localhost"}
 	case 11:
-		t = tmpl{[]string{"/dns/", "/dns4/", "/dns6/", "/dnsaddr/"}[r.Intn(4)] + []string{"example.com", "cid.contact", "localhost.example.org", "notlocalhost"}[r.Intn(4)], "dns"}
+		t = tmpl{[]string{"/dns/", "/dns4/", "/dns6/", "/dnsaddr/"}[r.Intn(4)] + []string{"example.com", "cid.contact", "localhost.example.org", "notlocalhost", "http.example.net", "https-gateway.example.org", "httpbin.example.net"}[r.Intn(7)], "dns"}
 	case 12:
 		t = tmpl{fmt.Sprintf("/ip4/%d.%d.%d.%d", []int{8, 1, 93}[r.Intn(3)], oct(), oct(), 1+r.Intn(254)), "public"}
 	default:
